@@ -206,3 +206,31 @@ Fixpoint qlist_eqb (a b : list Q) : bool :=
 Definition cdinv_check (a b c d ia ib ic id tol : Q) : bool :=
   Qle_bool (Qabs (ia * a + ib * c - 1)) tol && Qle_bool (Qabs (ia * b + ib * d)) tol &&
   Qle_bool (Qabs (ic * a + id * c)) tol && Qle_bool (Qabs (ic * b + id * d - 1)) tol.
+
+(* ---------------------------------------------------------------------------------------- *)
+(* "the same for scalar and array inputs", to the accuracies the statement names             *)
+(* ---------------------------------------------------------------------------------------- *)
+(* |a_i - b_i| <= tol, same length *)
+Fixpoint qlist_close_abs (a b : list Q) (tol : Q) : bool :=
+  match a, b with
+  | [], [] => true
+  | x :: s, y :: t => Qle_bool (Qabs (x - y)) tol && qlist_close_abs s t tol
+  | _, _ => false
+  end.
+
+(* a rational above PI/180 = 0.0174532925199... *)
+Definition pi180_hi : Q := 17453293 # 1000000000.
+(* difference of two longitudes across the seam *)
+Definition lon_wrap_abs (d : Q) : Q := Qmin (Qabs d) (Qabs (360 - Qabs d)).
+(* cos(lat) <= min 1 ((90 - |lat|) * PI/180): the east-west displacement on the sky that belongs
+   to a longitude difference dlon at latitude lat is at most dlon * lon_weight lat *)
+Definition lon_weight (lat : Q) : Q := Qmin 1 ((90 - Qabs lat) * pi180_hi).
+Definition sky_same_check (lon lat lon' lat' tol : Q) : bool :=
+  Qle_bool (Qabs (lat - lat')) tol &&
+  Qle_bool (lon_wrap_abs (lon - lon') * lon_weight lat) tol.
+Fixpoint sky_list_same (a b : list (Q * Q)) (tol : Q) : bool :=
+  match a, b with
+  | [], [] => true
+  | (l, t) :: s, (l', t') :: s' => sky_same_check l t l' t' tol && sky_list_same s s' tol
+  | _, _ => false
+  end.
